@@ -552,6 +552,7 @@ pub fn coordinate(spec: CheckSpec, tier: Tier) -> i32 {
 
 	// Triage violations
 	let mut new_violations: Vec<(String, Value)> = Vec::new();
+	let mut violation_lines: usize;
 	let mut known_seen: BTreeSet<String> = BTreeSet::new();
 	let mut stdout = std::io::stdout().lock();
 	for (class, (count, ws)) in &mut classes {
@@ -569,8 +570,17 @@ pub fn coordinate(spec: CheckSpec, tier: Tier) -> i32 {
 	// Confirm and write replay artefacts
 	let replays = PathBuf::from(format!("{VERIF}/replays"));
 	fs::create_dir_all(&replays).expect("replays dir");
-	let mut violation_lines = 0;
-	for (class, w) in &new_violations {
+	violation_lines = 0;
+	// simplest witnesses first; only the first few classes are confirmed by fresh-process replays
+	new_violations.sort_by_key(|(_, w)| (w["cost"].as_u64().unwrap_or(0), w["witness"].as_str().map_or(0, str::len)));
+	const MAX_CONFIRMED: usize = 12;
+	const MAX_REPORTED: usize = 200;
+	for (vi, (class, w)) in new_violations.iter().enumerate() {
+		if vi >= MAX_REPORTED {
+			let _ = writeln!(stdout, "... {} more violation classes not listed (see evidence violation_classes)", new_violations.len() - MAX_REPORTED);
+			violation_lines += new_violations.len() - MAX_REPORTED;
+			break;
+		}
 		let total = classes[class].0;
 		let payload = json!({
 			"property": spec.property, "tier": tier.name(), "class": class,
@@ -580,7 +590,7 @@ pub fn coordinate(spec: CheckSpec, tier: Tier) -> i32 {
 		let path = replays.join(format!("{}-{:016x}.json", spec.property, fnv(class.as_bytes()) ^ fnv(w["witness"].as_str().unwrap_or("").as_bytes())));
 		fs::write(&path, &text).expect("write replay");
 		let journal_kind = w["replay"]["kind"] == "journal";
-		if !journal_kind {
+		if !journal_kind && vi < MAX_CONFIRMED {
 			let (c1, o1) = replay_fresh(&path);
 			let (c2, o2) = replay_fresh(&path);
 			if c1 != c2 || o1 != o2 {
